@@ -65,6 +65,7 @@ try:
         meta["ran"].append("git -C /repo apply patch.diff; ./check %s quick -> exit %d, %d VIOLATION lines" % (p, rc, len(viol)))
 finally:
     subprocess.run(["git", "-C", "/repo", "checkout", "--", "."], capture_output=True)
+    subprocess.run(["git", "-C", "/repo", "clean", "-fdq"], capture_output=True)  # files the patch added
     # evidence and replay files written by a run against a mutated tree are not evidence
     subprocess.run(["git", "-C", "/verif", "checkout", "--", "evidence"], capture_output=True)
 meta["checks"] = results
